@@ -340,6 +340,9 @@ def obligations(tier, seed):
     obs.append(Ob(id="C03.5-gemini-urlparse", body="harness.C03:body_gemini_urlparse", sig="raises: bool, pidx: int, query: bool", pre=["0 <= pidx < %d" % len(PATHS)], timeout=60,
                   desc="Gemini handle() with a urlparse contract stub that may raise ValueError: a Gemini status line is written in both cases",
                   bounds="urlparse outcome symbolic (raises / path x query)", functions=["pygopherd.protocols.gemini.GeminiProtocol.handle"]))
+    obs.append(Ob(id="C03.3b-gethandler-absorbs-stat-errors", body="harness.C01:body_gethandler", sig="sel: str, answers: list[bool]", pre=["len(sel) <= 3", "len(answers) <= 2"], timeout=120,
+                  desc="real getHandler: a stat failure of any kind on the raw selector (including the ValueError CPython raises for NUL) ends in not-found, never in an internal error",
+                  bounds="|sel| <= 3 (all characters)", functions=["pygopherd.handlers.HandlerMultiplexer.getHandler"]))
     tl = 1
     for hi, hp in enumerate(c01.HANDLERS):
         for pi, pre in enumerate(c01.PREFIXES):
